@@ -730,10 +730,14 @@ func probe(d *driver, o *flowOut, ks *jwks, rule, at, idt, atKind string) engine
 // the subject contains. What the endpoint answers afterwards (claims, active, 403 ...) is the business of C08.
 // A subject that contains ':' is the one exception the documented format <id>:<subject> leaves open: a reader may
 // refuse such a token (Either), but if it resolves it, then to the stored id and subject.
-// The caller is always the plain client "web" (its credentials are not what is examined here).
+// The caller at introspection / exchange / revocation is the client the token was issued to (user flows) or the plain
+// client "web" (client_credentials, jwt-bearer: the service user / assertion client has no secret to present there).
+// "The reader must be reached" is demanded only where nothing but the token decides it: at userinfo always, at the
+// other three when the caller is the plain-named client the token belongs to (and, for introspection, is in its
+// audience). A foreign or unusually named caller may be turned away before the token is looked at (Either).
 
 var readerStats struct {
-	attributed, colonRefused atomic.Int64
+	attributed, colonRefused, callerRefused atomic.Int64
 }
 
 type readerProbe struct {
@@ -747,7 +751,12 @@ type readerProbe struct {
 func probeReaders(d *driver, o *flowOut, at string, stored *refstore.Token) (*verdict, string) {
 	colon := strings.Contains(stored.Subject, ":")
 	bearer := map[string]string{"Authorization": "Bearer " + at}
-	basic := map[string]string{"Authorization": webAuth}
+	caller, callerAuth := "web", webAuth
+	if d.c.flow != "cc" && d.c.flow != "jwt" {
+		caller, callerAuth = d.client, d.auth
+	}
+	basic := map[string]string{"Authorization": callerAuth}
+	own := caller == stored.ClientID && d.c.clientClass == "plain"
 	probes := []readerProbe{
 		{"userinfo", "SetUserinfoFromToken", 0, 1, func() *http.Request { return rig.Req("GET", "/userinfo", nil, bearer) }},
 		{"introspection", "SetIntrospectionFromToken", 0, 1, func() *http.Request {
@@ -795,6 +804,11 @@ func probeReaders(d *driver, o *flowOut, at string, stored *refstore.Token) (*ve
 		case colon:
 			readerStats.colonRefused.Add(1)
 			out = "colon-refused"
+		case p.name != "userinfo" && !(own && (p.name != "introspection" || has(stored.Audience, caller))):
+			readerStats.callerRefused.Add(1)
+			if out == "attributed" {
+				out = "caller-refused"
+			}
 		default:
 			return &verdict{"reader-" + p.name + "-refused", fmt.Sprintf("%s cannot read the access token the provider has just issued (token id %q, subject %q): status %d body %.200s",
 				p.name, stored.ID, stored.Subject, resp.Status, resp.Body)}, ""
